@@ -101,4 +101,15 @@ CHECKS["C15"] = dict(
     steps=[dict(name="dispatch", run="^TestCQRSDispatch$", quick=1200, thorough=40000, shards_thorough=16)],
 )
 
+CHECKS["C17"] = dict(
+    pkg="c17", race=True, level="exploration", timeout_quick=600, timeout_thorough=2400,
+    technique="model-based property testing (rapid) of Forwarder, FanIn, Requeuer and FanOut between a scripted source (fresh-copy redelivery on Nack) and a scripted destination with generated failure scripts",
+    level_text="Generated streams (arbitrary messages, retries counters, malformed envelopes) and destination failure scripts are relayed by the four real components; every destination Publish (topic, UUID/payload/metadata, settlement of the consumed copy inside the call), every settlement and every redelivery is compared with the relay model: no loss once the failures stop, no invention, Ack only after accept, Nack on failure, invalid envelopes never forwarded.",
+    level_note="Trusted: scripted Pub/Subs and the relay model in c17_test.go. FanOut order is not demanded (its internal GoChannel promises none).",
+    steps=[dict(name="forwarder", run="^TestForwarder$", quick=300, thorough=10000, shards_thorough=4),
+           dict(name="fanin", run="^TestFanIn$", quick=200, thorough=6000, shards_thorough=4),
+           dict(name="requeuer", run="^TestRequeuer$", quick=200, thorough=6000, shards_thorough=4),
+           dict(name="fanout", run="^TestFanOut$", quick=200, thorough=6000, shards_thorough=4)],
+)
+
 NOT_APPLICABLE = {}
